@@ -514,6 +514,24 @@ HIST_FIXED = [
 ]
 
 
+EVAL_LAWS = ['env_at_breakpoints', 'env_at_between_neighbours', 'env_at_holds_last', 'env_at_monotone', 'env_at_reference']
+
+
+def evaluation_laws(ctx, c):
+    """model-free part of the tie, run on EVERY check: the evaluation laws and an independent float
+    reference on the real Env._at for every shape name and numeric curve, inside rising and falling segments"""
+    res = ctx.impl('c19_laws', {'laws': EVAL_LAWS, 'seed': ctx.seed, 'n_mixed': ctx.n(60, 600)})
+    c.count('evaluation_law_probes_run', 1)
+    seen = set()
+    for b in res['bad']:
+        sig = next((s for f, s in SIGNATURES if f(b)), 'C19:%s' % b['law'])
+        if sig in seen:
+            continue
+        seen.add(sig)
+        c.failures.append(Failure('correspondence', 'law %s fails on the implementation: %s -> %s, expected %s (%s)' % (
+            b['law'], b['call'], b['got'], b['expected'], b['why']), signature=sig, replay=b, found_input=True, theorem=b['law']))
+
+
 def cexpected_chans(o):
     if isinstance(o, dict):
         e = o['err']
@@ -644,6 +662,7 @@ def correspond(ctx):
     python_level_checks(c, cases, out, raw, res['out'][len(cases):len(cases) + len(raw)],
                         hist, res['out'][len(cases) + len(raw):len(cases) + len(raw) + len(hist)])
     multichannel_correspondence(ctx, c, mc, mc_out)
+    evaluation_laws(ctx, c)
 
     items, live = [], []
     for k, o in zip(cases, out):
